@@ -469,7 +469,7 @@ pub fn run(ctx: &Ctx) {
         "history",
     );
 
-    let nr = ctx.tier.pick(100_000u64, 2_000_000u64);
+    let nr = ctx.tier.pick(500_000u64, 5_000_000u64);
     ctx.random(
         "random-names",
         nr,
@@ -495,7 +495,7 @@ pub fn run(ctx: &Ctx) {
     );
     ctx.extra("names_excluded_for_unicode_version_skew_in_sweep", json!(skew.load(std::sync::atomic::Ordering::Relaxed)));
 
-    let nh = ctx.tier.pick(150_000u64, 3_000_000u64);
+    let nh = ctx.tier.pick(700_000u64, 7_000_000u64);
     ctx.random(
         "builder-histories",
         nh,
